@@ -107,7 +107,7 @@ def bounded_flat_run(pack, pid, tier='quick'):
     the bus voltages are those of the power flow, and a short run stays at that point"""
     from contracts.packutil import native_guard
     name = '%s/andes/routines/tds.py:TDS.init;TDS.run/bounded:initialisation-is-an-equilibrium-of-the-power-flow-solution' % pid
-    cases = ['kundur/kundur_full.xlsx', 'ieee14/ieee14_full.xlsx', 'ieee14/ieee14_fload.json', 'ieee14/ieee14_ieeevc2.xlsx'] + (['ieee39/ieee39_full.xlsx', 'wecc/wecc_full.xlsx'] if tier == 'thorough' else [])
+    cases = ['kundur/kundur_full.xlsx', 'ieee14/ieee14_full.xlsx', 'ieee14/ieee14_fload.json', 'ieee14/ieee14_ieeevc2.xlsx', 'mixed:kundur'] + (['ieee39/ieee39_full.xlsx', 'wecc/wecc_full.xlsx'] if tier == 'thorough' else [])
 
     seen_known = []
 
@@ -121,7 +121,7 @@ def bounded_flat_run(pack, pid, tier='quick'):
         logging.getLogger('andes').setLevel(logging.CRITICAL)
         for case in cases:
             with contextlib.redirect_stdout(io.StringIO()), contextlib.redirect_stderr(io.StringIO()):
-                ss = andes.load(andes.get_case(case), default_config=True, no_output=True)
+                ss = andes.load(__import__('contracts.mixed_case', fromlist=['resolve']).resolve(case), default_config=True, no_output=True)
                 for mdl in ('Toggle', 'Fault', 'Alter'):
                     m = getattr(ss, mdl, None)
                     if m is not None and m.n > 0:
